@@ -1072,7 +1072,12 @@ func main() {
 		ig := cfg.assignsWithConds("readGitConfig", "", "ignored")
 		facts["allowedAssignments"] = l
 		facts["ignoredAssignments"] = ig
-		return "def allowedAssignments : List Bytes := " + bytesList(l) + "\ndef ignoredAssignments : List Bytes := " + bytesList(ig)
+		// which sources define an extension (the names .lfsconfig alone mentions are dropped at the end)
+		ex := append(cfg.assignsWithConds("readGitConfig", "", "definedByGit[name]"), cfg.assignsWithConds("readGitConfig", "", "extensions[name]")...)
+		ex = append(ex, cfg.callsWithConds("readGitConfig", "", "delete")...)
+		facts["extensionDefinitions"] = ex
+		return "def allowedAssignments : List Bytes := " + bytesList(l) + "\ndef ignoredAssignments : List Bytes := " + bytesList(ig) +
+			"\ndef extensionDefinitions : List Bytes := " + bytesList(ex)
 	})
 	// ---- lfs/attribute.go (C20): Attribute.Install only normalises and sets keys; it has no way back that
 	// would remove a section
